@@ -479,6 +479,15 @@ class C11(Oracle):
     own_kinds = frozenset({'case', 'assign', 'strip', 'rmfix', 'split', 'splitlines', 'partition', 'replace',
                            'expandtabs'})
 
+    def before(self, ctx):
+        op = ctx.op
+        if ctx.kind == 'replace' and op['old'] != '' and '\x1b' in op['new'].get('text', ''):
+            # a plain-str replacement that carries escape sequences: per match, what the constructor makes of the
+            # str together with the settings of the first character of that match (read before the call)
+            ctx.c11_pieces = [observe(AnsiString(op['new']['text'], ctx.recv.ansi_settings_at(a)))
+                              for a, _ in strref.replace_matches(ctx.pre.text, op['old'], op.get('count', -1))]
+            ctx.world.count('probe:replace_plain_with_escape')
+
     def _cmp(self, ctx, post, exp, name, **extra):
         if post.text != exp.text:
             # text agreement with str is C10's business (not claimed): clause unevaluable
@@ -538,7 +547,8 @@ class C11(Oracle):
             # for replace the clauses determine the text as well: characters outside the matches unchanged and
             # every match replaced by the replacement -> a different text means some match was not (or not
             # properly) replaced
-            _expect(post, models.m_replace(pre, op['old'], no, plain, op.get('count', -1)), 'replace')
+            _expect(post, models.m_replace(pre, op['old'], no, plain, op.get('count', -1),
+                                           pieces=getattr(ctx, 'c11_pieces', None)), 'replace')
         elif k == 'expandtabs':
             tab = op.get('tab', 8)
             exp = models.m_replace(pre, '\t', observe(' ' * tab), True, -1)
